@@ -134,6 +134,22 @@ Theorem c13_limit :
 Proof. intros mf ds. split; [exact (limit_names mf ds) | exact (limit_not_reached mf ds)]. Qed.
 Print Assumptions c13_limit.
 
+(* ... and across the polls of a run (done_trials_statuses accumulates): a failure seen in any poll is still
+   in the dict handed to _handle_failure at the end of the run unless the same trial finishes again later, so
+   with max_failures = 0 ... n the run ends with the error as soon as the remembered failures exceed the limit
+   (whatever happens in later polls, e.g. while waiting for trial completion). *)
+Theorem c13_limit_across_polls :
+  forall t pre d post, NoDup (map fst d) -> In (t, S_Failed) d ->
+    (forall d', In d' post -> ~ In t (map fst d')) ->
+    let ds := accumulate (pre ++ d :: post) in
+    In (t, S_Failed) ds /\ (0 < num_failed ds)%nat /\
+    forall mf, (mf < num_failed ds)%nat -> exists t', run_end mf ds = Some t' /\ In (t', S_Failed) ds.
+Proof.
+  intros t pre d post H1 H2 H3. destruct (failure_remembered t pre d post H1 H2 H3) as [A B].
+  split; [exact A|]. split; [exact B|]. intros mf Hmf. exact (limit_names mf _ Hmf).
+Qed.
+Print Assumptions c13_limit_across_polls.
+
 (* non-vacuity: a poll with a failed trial, an externally stopped one, a scheduler-stopped one *)
 Example c13_example :
   let statuses := [(0, S_Failed); (1, S_Stopped); (2, S_InProgress); (3, S_Completed)] in
